@@ -58,10 +58,10 @@ func ruleC18(r *Report) {
 	r.Trusted("goxmldsig v1.4.0 (signature cryptography)", "etree v1.5.0", "xml-roundtrip-validator v0.1.0")
 	r.NotDecided("signature cryptography; redirect-binding detached signatures (an enveloped signature is required, as the statement says)")
 	r.Assume("guard atoms are treated as independent propositions; library helpers of the root package are analysed as part of the entry point (inlining bound 3)")
-	r.Rule("C18.sig-required", "a logout response is reported valid only under the nil result of the signature validator applied to the root of the parsed document, which is the element that is unmarshalled (an absent signature is a non-nil error, hence a reject)", 4)
-	r.Rule("C18.table", "field rows: Destination != SloURL => reject; now > IssueInstant + 1*MaxIssueDelay => reject; Issuer absent or different => reject; status != Success => reject — for both encodings", 10)
-	r.Rule("C18.accept", "a signed response meeting all field conditions is reported valid", 2)
-	r.Rule("C18.xrv", "the bytes parsed are the bytes the round-trip validator accepted; both encodings", 2)
+	r.Rule("C18.sig-required", "a logout response is reported valid only under the nil result of the signature validator applied to the root of the parsed document, which is the element that is unmarshalled (an absent signature is a non-nil error, hence a reject)", 3)
+	r.Rule("C18.table", "field rows: Destination != SloURL => reject; now > IssueInstant + 1*MaxIssueDelay => reject; Issuer absent or different => reject; status != Success => reject — for both encodings", 5)
+	r.Rule("C18.accept", "a signed response meeting all field conditions is reported valid", 1)
+	r.Rule("C18.xrv", "the bytes parsed are the bytes the round-trip validator accepted; both encodings", 1)
 	r.Rule("C18.inflate", "the redirect variant inflates only through the bounded reader", 1)
 	r.Rule("C18.nil", "no dereference of an absent Issuer or a rootless document on the logout path", 1)
 
